@@ -4,6 +4,8 @@
 (* at top level / inside a function / inside a class / nested in another annotation / in a handled definition, plugged under the     *)
 (* context grid.                                                                                                                      *)
 EXTENDS MambaStatic, Json
+AbsM(n) == [Method(n, TRUE, <<>>, "Int", <<>>, <<>>) EXCEPT !.b = <<>>] @@ [abstract |-> TRUE]
+AbsC(n, parents, fields, methods) == [Class(n, <<>>, parents, fields, methods) EXCEPT !.k = "class"] @@ [abstract |-> TRUE]
 CONSTANTS Depth, Part
 Raw(s) == [k |-> "raw", v |-> s]
 RawS(s) == [k |-> "raw", v |-> s]       \* a statement given as text (the user's import statements)
@@ -21,6 +23,15 @@ Constructs == {
    <<"field-opt", <<Class("FO", <<CArg("c", TRUE, TRUE, "Int?", Absent)>>, <<>>, <<Def("fo", TRUE, "Str?", NoneL)>>, <<Method("m", TRUE, <<>>, "(Int, Int)", <<>>, <<Expr(TupL(<<IntL(1), IntL(2)>>))>>)>>)>>, <<Def("fo1", TRUE, "", New("FO", <<NoneL>>))>>>>,
    <<"abstract",  <<[Class("Shape", <<>>, <<>>, <<>>, <<[Method("area", TRUE, <<>>, "Int", <<>>, <<>>) EXCEPT !.b = <<>>] @@ [abstract |-> TRUE]>>) EXCEPT !.k = "class"] @@ [abstract |-> TRUE],
                     Class("Sq", <<>>, <<Parent("Shape", <<>>)>>, <<>>, <<Method("area", TRUE, <<>>, "Int", <<>>, <<Expr(IntL(4))>>)>>)>>, <<PrintS(MCall(New("Sq", <<>>), "area", <<>>))>>>>,
+   \* interfaces that extend interfaces: the abstract method is declared by the child only, by root and child, by the root only
+   <<"abstract-chain-child", <<AbsC("Shape", <<>>, <<Def("sides", TRUE, "Int", Absent)>>, <<>>), AbsC("Solid", <<Parent("Shape", <<>>)>>, <<>>, <<AbsM("volume")>>),
+                    Class("Cube", <<>>, <<Parent("Solid", <<>>)>>, <<Def("sides", TRUE, "Int", IntL(6))>>, <<Method("volume", TRUE, <<>>, "Int", <<>>, <<Expr(IntL(8))>>)>>)>>, <<PrintS(MCall(New("Cube", <<>>), "volume", <<>>))>>>>,
+   <<"abstract-chain-both", <<AbsC("Shape", <<>>, <<>>, <<AbsM("area")>>), AbsC("Solid", <<Parent("Shape", <<>>)>>, <<>>, <<AbsM("volume")>>),
+                    Class("Cube", <<>>, <<Parent("Solid", <<>>)>>, <<>>, <<Method("area", TRUE, <<>>, "Int", <<>>, <<Expr(IntL(6))>>), Method("volume", TRUE, <<>>, "Int", <<>>, <<Expr(IntL(8))>>)>>)>>, <<PrintS(MCall(New("Cube", <<>>), "volume", <<>>))>>>>,
+   <<"abstract-chain-root", <<AbsC("Shape", <<>>, <<>>, <<AbsM("area")>>), AbsC("Solid", <<Parent("Shape", <<>>)>>, <<Def("sides", TRUE, "Int", Absent)>>, <<>>),
+                    Class("Cube", <<>>, <<Parent("Solid", <<>>)>>, <<Def("sides", TRUE, "Int", IntL(6))>>, <<Method("area", TRUE, <<>>, "Int", <<>>, <<Expr(IntL(6))>>)>>)>>, <<PrintS(MCall(New("Cube", <<>>), "area", <<>>))>>>>,
+   <<"abstract-fields-only", <<AbsC("Shape", <<>>, <<Def("sides", TRUE, "Int", Absent)>>, <<>>),
+                    Class("Tri", <<>>, <<Parent("Shape", <<>>)>>, <<Def("sides", TRUE, "Int", IntL(3))>>, <<>>)>>, <<PrintS(Field(New("Tri", <<>>), "sides"))>>>>,
    <<"sqrt-in-fun", <<Fun("root", <<Param("x", "Float", Absent)>>, "Float", <<>>, <<Expr(Raw("sqrt x"))>>)>>, <<PrintS(StrL("r"))>>>>,
    <<"sqrt-in-method", <<Class("R", <<>>, <<>>, <<>>, <<Method("root", TRUE, <<Param("x", "Float", Absent)>>, "Float", <<>>, <<Expr(Raw("sqrt x"))>>)>>)>>, <<PrintS(StrL("r"))>>>>,
    \* the typing names in their INFERRED and degenerate forms (no annotation in the source, no type arguments)
